@@ -8,6 +8,7 @@ package chainimport
 import (
 	"context"
 	"errors"
+	"math/big"
 	"time"
 
 	"github.com/btcsuite/btcd/blockchain"
@@ -73,6 +74,54 @@ const vpFCheckpointHeight = 2
 
 var vpFCheckpoint = chainhash.Hash{0xf0, vpFCheckpointHeight}
 
+// vpReqBits: the difficulty the rules require of a header with timestamp ts
+// on top of parent, restated independently of btcd: no retargeting when
+// interval is 0; otherwise every interval-th height the target is scaled by
+// the time the last interval took (clamped to a factor of 4 and to the
+// proof-of-work limit), and with the testnet-style minimum-difficulty
+// exception a header more than 20 minutes after its parent carries the
+// proof-of-work limit while any other one carries the difficulty of the
+// nearest ancestor that is not such an exception.
+func vpReqBits(parent []wire.BlockHeader, ts int64, interval int, mindiff bool) uint32 {
+	if interval == 0 {
+		return vpPowLimitBits
+	}
+	h := len(parent)
+	last := parent[h-1]
+	if h%interval != 0 {
+		if mindiff {
+			if ts > last.Timestamp.Unix()+20*60 {
+				vpReach("minimum-difficulty-exception-applies")
+				return vpPowLimitBits
+			}
+			i := h - 1
+			for i > 0 && i%interval != 0 && parent[i].Bits == vpPowLimitBits {
+				i--
+			}
+			if parent[i].Bits != last.Bits {
+				vpReach("difficulty-restored-after-a-minimum-difficulty-header")
+			}
+			return parent[i].Bits
+		}
+		return last.Bits
+	}
+	first := parent[h-interval]
+	span := int64(interval) * 600
+	actual := last.Timestamp.Unix() - first.Timestamp.Unix()
+	if actual < span/4 {
+		actual = span / 4
+	}
+	if actual > span*4 {
+		actual = span * 4
+	}
+	nt := new(big.Int).Mul(blockchain.CompactToBig(last.Bits), big.NewInt(actual))
+	nt.Div(nt, big.NewInt(span))
+	if nt.Cmp(vpPowLimit) > 0 {
+		nt.Set(vpPowLimit)
+	}
+	return blockchain.BigToCompact(nt)
+}
+
 func vpParams() chaincfg.Params {
 	g := wire.BlockHeader{Version: 4, Timestamp: time.Unix(1296688602, 0), Bits: vpPowLimitBits}
 	vpGrind(&g, true)
@@ -99,13 +148,26 @@ func VerifH_C14_import() {
 	vpOpt("clock", 1)
 	params := vpParams()
 	maxH := vpParam("maxheight", 5)
+	// a network that retargets every `retarget` blocks, optionally with the
+	// testnet-style minimum-difficulty exception
+	interval := vpParam("retarget", 0)
+	mindiff := vpParam("mindiff", 0) == 1
+	if interval > 0 {
+		params.PoWNoRetargeting = false
+		params.TargetTimespan = time.Duration(interval) * params.TargetTimePerBlock
+		if mindiff {
+			params.ReduceMinDifficulty = true
+			params.MinDiffReductionTime = 20 * time.Minute
+		}
+	}
 
 	// ---- the honest chain 0..maxH (every header valid and linked) ----
 	chain := []wire.BlockHeader{params.GenesisBlock.Header}
 	filters := []chainhash.Hash{{0x0f}}
 	for h := 1; h <= maxH; h++ {
 		hdr := wire.BlockHeader{Version: 4, PrevBlock: chain[h-1].BlockHash(),
-			Timestamp: time.Unix(1296688602+int64(h)*600, 0), Bits: vpPowLimitBits}
+			Timestamp: time.Unix(1296688602+int64(h)*600, 0)}
+		hdr.Bits = vpReqBits(chain, hdr.Timestamp.Unix(), interval, mindiff)
 		vpGrind(&hdr, true)
 		chain = append(chain, hdr)
 		var f chainhash.Hash
@@ -114,8 +176,8 @@ func VerifH_C14_import() {
 	}
 
 	// ---- target stores ----
-	bt := vpRange("blockTip", 0, vpParam("maxtip", 2))
-	ft := vpRange("filterTip", 0, vpParam("maxtip", 2))
+	bt := vpRange("blockTip", vpParam("mintip", 0), vpParam("maxtip", 2))
+	ft := vpRange("filterTip", vpParam("mintip", 0), vpParam("maxtip", 2))
 	if vpParam("equaltips", 0) == 1 && bt != ft {
 		return
 	}
@@ -124,7 +186,7 @@ func VerifH_C14_import() {
 	fs := &vpFilterStore{hashes: append([]chainhash.Hash(nil), filters[:ft+1]...), ctl: ctl}
 
 	// ---- the import files ----
-	start := vpRange("fileStart", 0, vpParam("maxstart", 2))
+	start := vpRange("fileStart", vpParam("minstart", 0), vpParam("maxstart", 2))
 	count := vpRange("fileCount", 1, vpParam("maxcount", 3))
 	if start+count-1 > maxH {
 		return
@@ -132,15 +194,23 @@ func VerifH_C14_import() {
 	// The file is a self-consistent chain: the honest headers up to an
 	// optional corrupted position, and from there on headers built on top
 	// of the corrupted one (as an attacker would).
-	corrupt := vpRange("corrupt", 0, vpParam("corruptions", 3)) // 0 none, 1 bad pow, 2 broken link, 3 wrong bits
+	// 0 none, 1 bad pow, 2 broken link, 3 wrong bits; on a retargeting network also 4 the proof-of-work limit claimed
+	// whether or not the exception applies, 5 the parent's difficulty, 6 no defect: a fresh branch with spacings of its own
+	corrupt := vpRange("corrupt", 0, vpParam("corruptions", 3))
 	cpos := -1
 	if corrupt != 0 {
 		cpos = vpRange("corruptPos", 0, count-1)
 	}
+	// on a network with the minimum-difficulty exception the attacker's
+	// headers may start before the defective one (each with a spacing of its own)
+	fstart := cpos
+	if mindiff && cpos > 0 {
+		fstart = vpRange("freshFrom", 0, cpos)
+	}
 	var fileHdrs []wire.BlockHeader
 	for i := 0; i < count; i++ {
 		hh := start + i
-		if cpos < 0 || i < cpos {
+		if cpos < 0 || i < fstart {
 			fileHdrs = append(fileHdrs, chain[hh])
 			continue
 		}
@@ -150,6 +220,33 @@ func VerifH_C14_import() {
 		} else if hh > 0 {
 			h.PrevBlock = chain[hh-1].BlockHash()
 		}
+		if interval > 0 && hh > 0 {
+			// never equal to the honest header of this height, whatever its nonce
+			h.Version = 5
+			// the chain this header sits on, as far as the file and the honest chain tell
+			parent := append([]wire.BlockHeader(nil), chain[:start]...)
+			parent = append(parent, fileHdrs[:i]...)
+			if mindiff {
+				// each header by itself: one second beyond the 20-minute limit, exactly at it, or on time
+				switch vpRange("spacing", 0, 2) {
+				case 0:
+					h.Timestamp = time.Unix(parent[hh-1].Timestamp.Unix()+20*60+1, 0)
+				case 1:
+					h.Timestamp = time.Unix(parent[hh-1].Timestamp.Unix()+20*60, 0)
+				default:
+					h.Timestamp = time.Unix(parent[hh-1].Timestamp.Unix()+600, 0)
+				}
+			}
+			h.Bits = vpReqBits(parent, h.Timestamp.Unix(), interval, mindiff)
+			if i == cpos {
+				switch corrupt {
+				case 4:
+					h.Bits = vpPowLimitBits
+				case 5:
+					h.Bits = parent[hh-1].Bits
+				}
+			}
+		}
 		good := true
 		if i == cpos {
 			switch corrupt {
@@ -158,7 +255,7 @@ func VerifH_C14_import() {
 			case 2:
 				h.PrevBlock[5] ^= 0x40
 			case 3:
-				h.Bits = vpPowLimitBits - 1
+				h.Bits = h.Bits - 1
 			}
 		}
 		vpGrind(&h, good)
@@ -309,7 +406,7 @@ func VerifH_C14_import() {
 		if i >= len(preB) {
 			hc := bs.hdrs[i]
 			vpAssert(vpPowOK(&hc), "stored-new-header-passed-proof-of-work")
-			vpAssert(hc.Bits == vpPowLimitBits, "stored-new-header-has-required-difficulty")
+			vpAssert(hc.Bits == vpReqBits(bs.hdrs[:i], hc.Timestamp.Unix(), interval, mindiff), "stored-new-header-has-required-difficulty")
 		}
 	}
 	if err != nil {
